@@ -231,9 +231,16 @@ func famDisturb(w *World, c *Case, rng *rand.Rand) {
 					w.driveGate(rng, 12+rng.Intn(20))
 				}
 				w.Wait()
-				if len(w.RevSrvs) == 0 {
+				// shut down the serving end of the tunnel that carries the RPCs
+				switch w.Cfg.Dir {
+				case "forward", "nested-ff":
 					w.Handler.InitiateShutdown()
-				} else {
+				case "nested-fr":
+					w.Inner.InitiateShutdown()
+				case "nested-rr":
+					go w.RevSrvs[1].GracefulStop()
+					w.Wait()
+				default: // reverse, nested-rf
 					go w.RevSrvs[0].GracefulStop()
 					w.Wait()
 				}
